@@ -134,8 +134,11 @@ def parseEv (s : Sys) (tok : String) : Option Ev :=
   | ["c"] => some .commit
   | ["r"] => some .rollback
   | ["x"] => some .deleteAll
+  | ["z"] => some .removeEmpty
   | ["mu"] => some (.startMerge (s.st.uncommitted.map (·.segId)))
   | ["mc"] => some (.startMerge (s.st.committed.map (·.segId)))
+  | ["xu"] => some (.startMergeExplicit (s.st.uncommitted.map (·.segId)))
+  | ["xc"] => some (.startMergeExplicit (s.st.committed.map (·.segId)))
   | ["e"] => some .endMerge
   | _ => none
 
@@ -150,10 +153,14 @@ def parseEvM (s : SysM) (tok : String) : Option EvM :=
   | ["c"] => some .commit
   | ["r"] => some .rollback
   | ["x"] => some .deleteAll
+  | ["z"] => some .removeEmpty
   | ["mu"] => some (.startMerge (s.st.uncommitted.map (·.segId)))
   | ["mc"] => some (.startMerge (s.st.committed.map (·.segId)))
   | ["mu1"] => some (.startMerge ((s.st.uncommitted.map (·.segId)).drop 1))
   | ["mc1"] => some (.startMerge ((s.st.committed.map (·.segId)).drop 1))
+  | ["xu"] => some (.startMergeExplicit (s.st.uncommitted.map (·.segId)))
+  | ["xc"] => some (.startMergeExplicit (s.st.committed.map (·.segId)))
+  | ["xc1"] => some (.startMergeExplicit ((s.st.committed.map (·.segId)).drop 1))
   | ["e", i] => i.toNat?.map EvM.endMerge
   | _ => none
 
